@@ -120,12 +120,6 @@ class Terms:
             v, w = self.ev(e.value, w)
             i, w = self.ev(e.slice, w)
             return self.step("getitem", w, [v, i])
-        if isinstance(e, ast.Delete):  # produced by the optimizer for operator.delitem
-            if len(e.targets) == 1 and isinstance(e.targets[0], ast.Subscript):
-                t = e.targets[0]
-                v, w = self.ev(t.value, w)
-                i, w = self.ev(t.slice, w)
-                return self.step("delitem", w, [v, i])
         if isinstance(e, (ast.Tuple, ast.List, ast.Set)):
             vals = []
             for x in e.elts:
@@ -249,6 +243,12 @@ class Validator:
         if ast.dump(b) == ast.dump(a):
             return
         import time
+        stray = [n for n in ast.walk(a) if isinstance(n, ast.stmt)]
+        if stray and not any(isinstance(n, ast.stmt) for n in ast.walk(b)):
+            # Python's grammar (ASDL) has no statement inside an expression: compile() rejects such a tree with a
+            # TypeError, so code that compiled before the pass no longer compiles after it
+            self.ob("invalid-ast", False, f"{ctx}: the pass put a statement node ({type(stray[0]).__name__}) in an expression position", b, a)
+            return
         T = Terms(self.alias)
         vb, wb = T.ev(b, T.w0)
         va, wa = T.ev(a, T.w0)
@@ -370,6 +370,8 @@ class Validator:
             self.stmts(b.orelse, a.orelse, g, ctx + "/if-orelse")
             return
         if tb is not ta:
+            if tb is ast.Expr and ta is ast.Delete and self._delitem_stmt(b, a, ctx):
+                return
             if tb is ast.Expr and ta is ast.Expr:
                 pass
             else:
@@ -428,6 +430,33 @@ class Validator:
                         self.ob("field-changed", False, f"{ctx}/{tb.__name__}.{fb}", b, a)
             elif vb != va:
                 self.ob("field-changed", False, f"{ctx}/{tb.__name__}.{fb}", b, a)
+
+    def _delitem_stmt(self, b: ast.Expr, a: ast.Delete, ctx: str) -> bool:
+        """`operator.delitem(x, i)` as a statement (value discarded)  vs  `del x[i]`: same effects in the same order?"""
+        import time
+        T = Terms(self.alias)
+        c = b.value
+        if not (isinstance(c, ast.Call) and T.operator_fn(c) == "delitem" and len(c.args) == 2 and not c.keywords
+                and not any(isinstance(x, ast.Starred) for x in c.args)
+                and len(a.targets) == 1 and isinstance(a.targets[0], ast.Subscript)):
+            return False
+        _, wb = T.ev(c, T.w0)
+        t = a.targets[0]
+        v, w = T.ev(t.value, T.w0)
+        i, w = T.ev(t.slice, w)
+        _, wa = T.step("delitem", w, [v, i])
+        s = z3.Solver()
+        s.set("timeout", 20000)
+        s.add(wb != wa)
+        t0 = time.time()
+        r = s.check()
+        self.solver_s += time.time() - t0
+        self.queries += 1
+        if r == z3.unsat:
+            self.ob("delitem-statement", True, f"{ctx}: operator.delitem call in statement position == del statement (same effects, same order)", b, a)
+        else:
+            self.ob("delitem-statement", False if r == z3.sat else None, f"{ctx}: del statement differs from the call ({r})", b, a)
+        return True
 
     def module_pair(self, before: ast.AST, after: ast.AST):
         bb = getattr(before, "body", None)
